@@ -57,4 +57,44 @@ theorem mapV_insert {α β} (f : α → β) (m : SMap α) (k : Bytes) (v : α) :
       · simp only [List.map_cons, List.cons.injEq, true_and]
         exact ih
 
+theorem find_mapV {α β} (f : α → β) (m : SMap α) (k : Bytes) :
+    SMap.find (mapV f m) k = (SMap.find m k).map f := by
+  induction m with
+  | nil => rfl
+  | cons q rest ih =>
+    obtain ⟨k', v'⟩ := q
+    simp only [mapV, List.map_cons, SMap.find]
+    split
+    · rfl
+    · exact ih
+
+theorem mapV_erase {α β} (f : α → β) (m : SMap α) (k : Bytes) :
+    mapV f (SMap.erase m k) = SMap.erase (mapV f m) k := by
+  induction m with
+  | nil => rfl
+  | cons q rest ih =>
+    obtain ⟨k', v'⟩ := q
+    simp only [SMap.erase, mapV, List.map_cons, List.filter_cons]
+    split
+    · simp only [List.map_cons, List.cons.injEq, true_and]; exact ih
+    · exact ih
+
+theorem keys_mapV {α β} (f : α → β) (m : SMap α) : SMap.keys (mapV f m) = SMap.keys m := by
+  simp [SMap.keys, mapV, List.map_map, Function.comp_def]
+
+theorem isEmpty_mapV {α β} (f : α → β) (m : SMap α) : (mapV f m).isEmpty = m.isEmpty := by
+  cases m <;> simp [mapV]
+
+theorem erase_absent {α} (m : SMap α) (k : Bytes) (h : SMap.find m k = none) : SMap.erase m k = m := by
+  induction m with
+  | nil => rfl
+  | cons q rest ih =>
+    obtain ⟨k', v'⟩ := q
+    unfold SMap.find at h
+    split at h
+    · simp at h
+    · rename_i hne
+      simp only [SMap.erase, List.filter_cons, hne, Bool.not_false, if_true, List.cons.injEq, true_and]
+      exact ih h
+
 end GFS.SMapL
